@@ -11,6 +11,7 @@ import numpy as np
 
 import common as C
 import fuzzylite as fl
+from streams import corpus_cases
 
 STREAM = "engine-io"
 NAMES = ["a", "b", "c", "", "A", "a b", "0", "-1", "é"]
@@ -309,7 +310,7 @@ def oracle(case):
 
 def run(ctx):
     st = ctx.stats
-    cases = list(gen_cases(ctx))
+    cases = corpus_cases("C02", STREAM) + list(gen_cases(ctx))
     outs = ctx.driver.eval([model_line(c) for c in cases])
     mism = []
     for case, line in zip(cases, outs):
